@@ -9,7 +9,7 @@ func init() {
 			"that crossing a tick adds the signed net liquidity of exactly that tick (negated for zero-for-one) and moves the current tick to next−1 / next; that ticks are removed only when reported empty and the pool is uninitialised only when no position remains; and that the low-level writers of ticks, positions and pool price have only the listed callers.",
 		NotCovered:  []string{"the invariant itself over histories", "price/tick agreement as numbers (C14)"},
 		Assumptions: []string{"KV store semantics"},
-		MinObl:      63,
+		MinObl:      69,
 		Run:         runC07,
 	})
 }
@@ -57,6 +57,7 @@ func runC07(c *rules.Ctx) {
 	c.HasCall(X, "sdkmath.LegacyDec.AddMut", []string{"_", "swapstrategy.SwapStrategy.SetLiquidityDeltaSign(_, cl.ParseTickFromBz(_)#0.LiquidityNet)"}, true, "crossing adds the (direction-signed) net liquidity of the tick that was parsed from the iterator", "")
 	c.StoreField(X, "tick", "swapstrategy.SwapStrategy.UpdateTickAfterCrossing(strategy, nextInitializedTick)", "the current tick moves according to the strategy")
 	c.HasCall(X, "cosmos-db.Iterator.Next", []string{"nextTickIter"}, true, "the tick iterator advances past the crossed tick", "")
+	clOvershootBeforeTickRules(c)
 	clCrossTickRules(c)
 	// genesis import restores every exported tick (a tick with net 0 can have gross > 0)
 	c.ForEach(K+"InitGenesis", "cl.Keeper.SetTickInfo", "elem(genState.PoolData).Ticks", "every exported tick of every pool is restored", true)
